@@ -1064,6 +1064,47 @@ def report(ck, cur, other, ops, hook_findings, final, where):
     return key
 
 
+def directed_search(ck, bad, budget):
+    """the correspondence disagrees on these histories: look for a concrete failure of the REAL code on and around them (every
+    prefix, and every one-operation extension followed by a read of all derived values), with the model-independent oracles"""
+    import time
+    t0 = time.time()
+    found = 0
+    around = [()] + [(e,) for e in EXTRA + [READ_STR, ('flush', True, True), ('add_atom', 6, 0, False, None)]]
+    for tag, ops, exns in bad[:60]:
+        cur, other = tag.split(':', 1)[1].split('|')
+        base = [tuple(tuple(x) if isinstance(x, list) else x for x in o) for o in ops]
+        hit = False
+        for ext in around:
+            if time.time() - t0 > budget:
+                ck.count('directed:budget-exhausted')
+                return found
+            seq = base + list(ext)
+            w = fresh_world(cur, other)
+            hook = SearchHook()
+            try:
+                run_ops(w, seq, hook)
+                if not in_transaction(w.cur) and id(w.cur) not in hook.tainted and adjacency_ok(w.cur):
+                    w.apply(READ_ALL)
+                ff = final_findings(w, hook)
+            except Exception as e:  # noqa
+                ck.count('directed:oracle-crashed:' + type(e).__name__)
+                continue
+            ck.case(('directed', tag, tuple(seq)), nontrivial=True)
+            ck.count('directed:histories')
+            if hook.findings:
+                i = hook.findings[0][0]
+                report(ck, cur, other, seq[:i + 1], [f for f in hook.findings if f[0] == i], [], 'directed search around a correspondence disagreement')
+                hit = True
+            elif ff:
+                report(ck, cur, other, seq, [], ff, 'directed search around a correspondence disagreement')
+                hit = True
+            if hit:
+                found += 1
+                break
+    return found
+
+
 def search_stereo_and_reactions(ck):
     """molecules with stereo labels (fix_stereo after edits), reaction containers (copy independence, flush propagation)"""
     from chython import smiles
@@ -1174,6 +1215,8 @@ def run(ck):
     if cr2.cases:
         ck.sample({'model_call': cr2.cases[0][:1500].replace('\x02', '').replace('\x03', ''), 'meta': repr(cr2.meta[0])[:600]})
     if not ok or bad:
+        nfound = directed_search(ck, bad, 60 if quick else 600)
+        ck.extra['directed_search_found'] = nfound
         ck.unchecked('correspondence Cache model vs chython MoleculeContainer', (log1 + log2)[-1500:], [repr(x)[:600] for x in bad[:20]])
     if shared:
         ck.unchecked('atom objects shared between live molecules', repr(shared[:3]))
